@@ -202,7 +202,8 @@ def judge(ctx, focus, p, r, real):
     if focus == 'c01' and real and not head_uniform:
         ctx.fail('shipped_grammar_not_head_uniform', f'the {real} rule functions returned results with different head directions in one search '
                  '(the first-pop-wins chart is sound only for head-uniform grammars)', pj)
-    if focus == 'c01' and nbest == 1 and (head_uniform or real) and comp is not None:
+    if focus == 'c01' and (nbest > 1 or head_uniform or real) and comp is not None:
+        # 1-best: first pop wins per (span, category), sound for head-uniform grammars; n-best keeps every item, so the first goal is the optimum for any grammar
         pops_monotone(ctx, p, r)
         if r['status'] == 0:
             best = max(A.total8(p, d) for d in comp) * 2 if comp else None
@@ -228,6 +229,38 @@ def judge(ctx, focus, p, r, real):
             ctx.fail('nbest_not_best', f'returned scores {scores16} are not the {len(scores16)} largest of all derivation scores {allsc[:8]}', pj)
 
     return goals
+
+
+def boundary_budgets(ctx, focus, p, r, real, cases, descr):
+    """the same sentence with the step budget set exactly to the number of pops a goal needed (and one less): a derivation completed
+    WITHIN the budget must be returned - the search is deterministic, so the budgeted run is a prefix of the unlimited one"""
+    import copy
+    fin_at = [k + 1 for k, t in enumerate(r['trace']) if t['fin']]      # pops used when the i-th goal was taken from the agenda
+    if not fin_at:
+        return
+    first = p.z(r['goals'][0]['in'] + r['goals'][0]['out'])
+    which = ctx.rng.randrange(len(fin_at))
+    for delta in (0, -1):
+        p2 = copy.copy(p)
+        p2.max_step = fin_at[which] + delta
+        if p2.max_step < 1:
+            continue
+        r2 = p2.run()
+        ctx.count(f'boundary_budget:{"exact" if delta == 0 else "one_short"}:status{r2["status"]}')
+        ctx.case(('budget', tuple(map(tuple, p.tag.tolist())), tuple(map(tuple, p.dep.tolist())), tuple(p.roots), p.nbest, p.pruning, p.use_beta, p2.max_step), nontrivial=True)
+        if len(r2['trace']) <= 220:
+            cases.append(A.run_case(freeze(p2, r2) if real else p2, r2))
+            descr.append({'n': p.n, 'nbest': p.nbest, 'pops': len(r2['trace']), 'status': r2['status'], 'grammar': real or 'synthetic', 'max_step': p2.max_step})
+        pj = {'problem': (freeze(p2, r2) if real else p2).gallina(), 'grammar': real or 'synthetic', 'pjson': p2.to_json()}
+        if delta == 0 and which == 0 or (delta == 0 and p.nbest > 1):
+            # the budget covers the pop of goal number `which`: at least which+1 parses, the same ones as without a budget
+            got = [p.z(g['in'] + g['out']) for g in r2['goals']]
+            want_n = which + 1
+            if r2['status'] != 0 or len(got) < want_n:
+                ctx.fail('failed_within_budget', f'max_step={p2.max_step}: {want_n} derivation(s) are completed within this step budget (the unlimited run takes goal {which + 1} '
+                         f'from the agenda at pop {fin_at[which]}), but the search reports status {r2["status"]} with {len(got)} parse(s)', pj)
+            elif got[0] != first:
+                ctx.fail('budget_changes_first_parse', f'max_step={p2.max_step}: first parse scores {got[0] / A.SCALE}, without a budget {first / A.SCALE}', pj)
 
 
 def float_stream(ctx, focus, n_problems):
@@ -308,8 +341,8 @@ def run_family(ctx, focus, pfile):
     for it in range(nprob):
         kind = rng.random()
         nbest = 1
-        if focus == 'c10' or (focus in ('c02', 'c09') and rng.random() < 0.4):
-            nbest = rng.randint(2, 6)
+        if focus == 'c10' or (focus in ('c02', 'c09') and rng.random() < 0.4) or (focus == 'c01' and rng.random() < 0.25):
+            nbest = rng.randint(2, 6)       # C01: the FIRST parse of an n-best list is the optimum too
         if kind < 0.75:
             kw = {}
             if focus == 'c16':
@@ -329,6 +362,9 @@ def run_family(ctx, focus, pfile):
             if not p.use_beta:
                 p.theta_odd = None
             real = lang
+        if focus == 'c09' and rng.random() < 0.2:
+            p.pen8 = rng.choice([-1, -2, -3])       # a negative unary penalty (a bonus) is a legal setting: C09 quantifies over every penalty
+            ctx.count('penalty:negative')
         r = p.run()
         ctx.count(f'status:{r["status"]}')
         ctx.count('grammar:' + (real or 'synthetic'))
@@ -345,6 +381,8 @@ def run_family(ctx, focus, pfile):
         else:
             ctx.count('trace_too_long_for_coq')
         goals = judge(ctx, focus, p, r, real)
+        if r['status'] == 0 and pops <= 220 and rng.random() < 0.3:
+            boundary_budgets(ctx, focus, p, r, real, cases, descr)
         if it < 3:
             ctx.sample({'problem': p.to_json(), 'status': r['status'], 'pops': pops, 'goals': [repr(g) for g in goals][:2]})
     if focus in ('c01', 'c09', 'c10'):
